@@ -784,8 +784,15 @@ fn main() {
     // known-finding classes are reported 20 times each at most (all are counted), so that they
     // cannot crowd a new failure out of the bounded failure list
     let mut kf_counts: BTreeMap<String, usize> = BTreeMap::new();
-    // C17_MODEL_CAP=n: soft cap on the thorough tier's model-side cells (strata are always sent); unset = all
-    let model_cap: Option<usize> = std::env::var("C17_MODEL_CAP").ok().and_then(|x| x.parse().ok());
+    // thorough tier: every stratum plus a uniform draw of the remaining modelled cells, about
+    // `model_cap` cells in total (default 60000: ~1 min of coqc on 16 idle cores, ~15 min on a
+    // heavily shared machine); C17_MODEL_CAP=0 sends every modelled cell
+    let model_cap: Option<usize> = match std::env::var("C17_MODEL_CAP").ok().and_then(|x| x.parse::<usize>().ok()) {
+        Some(0) => None,
+        Some(n) => Some(n),
+        None => Some(60_000),
+    };
+    let n_cells = cells.len();
 
     for (ci, c) in cells.iter().enumerate() {
         let recv = &recvs[c.ri];
@@ -852,8 +859,8 @@ fn main() {
         let s2 = format!("{key}|{varied}|{cls}");
         let fresh = strata.insert(s1) | strata.insert(s2);
         let tags = vec![format!("class:{cls}"), format!("kind:{:?}", c.bk)];
-        let under_cap = model_cap.map_or(true, |cap| sink.count < cap);
-        if (thorough && under_cap) || fresh {
+        let drawn = thorough && model_cap.map_or(true, |cap| rng.chance(cap as u64, n_cells as u64));
+        if drawn || fresh {
             per_builtin.entry(key).or_default()[2] += 1;
             let kf = cell_kf(c);
             sink.push(cell_gallina(c, recv, &o), cell_desc(c, recv, &o), nontrivial, kf, &tags.iter().map(|s| s.as_str()).collect::<Vec<_>>());
